@@ -1003,15 +1003,16 @@ func callBuiltin(caller *frame, fn *ssa.Builtin, args []value) value {
 			}
 			return arg0
 		}
-		// append([]T, ...[]T) []T
+		// append([]T, ...[]T) []T -- elements are copied by value
+		src1 := cloneSlice(args[1].([]value))
 		if g := caller.i.guard; g != nil && !g.IsTrue() {
 			// never write into shared backing store under a guard
 			a0 := args[0].([]value)
-			n := make([]value, len(a0), len(a0)+len(args[1].([]value)))
-			copy(n, a0)
-			return append(n, args[1].([]value)...)
+			n := make([]value, len(a0), len(a0)+len(src1))
+			copy(n, cloneSlice(a0))
+			return append(n, src1...)
 		}
-		return append(args[0].([]value), args[1].([]value)...)
+		return append(args[0].([]value), src1...)
 
 	case "copy": // copy([]T, []T) int or copy([]byte, string) int
 		src := args[1]
